@@ -115,16 +115,44 @@ pub fn load_known_findings(property: &str) -> Vec<KnownFinding> {
     out
 }
 
+/// `*` in a pattern matches any run of characters.
+pub fn glob_match(pat: &str, s: &str) -> bool {
+    if !pat.contains('*') {
+        return pat == s;
+    }
+    let parts: Vec<&str> = pat.split('*').collect();
+    let mut pos = 0usize;
+    for (i, part) in parts.iter().enumerate() {
+        if part.is_empty() {
+            continue;
+        }
+        if i == 0 {
+            if !s.starts_with(part) {
+                return false;
+            }
+            pos = part.len();
+        } else if i == parts.len() - 1 {
+            return s.len() >= pos + part.len() && s[pos..].ends_with(part);
+        } else {
+            match s[pos..].find(part) {
+                Some(j) => pos += j + part.len(),
+                None => return false,
+            }
+        }
+    }
+    true
+}
+
 fn is_subsequence(needle: &[String], hay: &[String]) -> bool {
     let mut it = hay.iter();
-    needle.iter().all(|n| it.any(|h| h == n))
+    needle.iter().all(|n| it.any(|h| glob_match(n, h)))
 }
 
 impl KnownFinding {
     pub fn matches(&self, v: &Violation) -> bool {
-        self.class == v.class
+        glob_match(&self.class, &v.class)
             && is_subsequence(&self.requires, &v.kinds)
-            && !self.forbids.iter().any(|f| v.kinds.contains(f))
+            && !self.forbids.iter().any(|f| v.kinds.iter().any(|k| glob_match(f, k)))
     }
 }
 
